@@ -18,9 +18,30 @@ def _narrowing(fn, rhs):
     return None
 
 
+def field_of_setter(fx, q):
+    """the field a one-parameter setter stores its parameter into (`void index(uint32 v) { m_index = v; }`): the accessors are the
+    stable names, the private fields behind them may be renamed"""
+    for fn in fx.fns_named(q):
+        ps = fn.f.get('params') or []
+        if len(ps) != 1 or not fn.blocks:
+            continue
+        for _, e in fn.elements():
+            if e['k'] == 'BinaryOperator' and e.get('op') == '=':
+                l = fn.strip_all_casts(e['c'][0])
+                if l['k'] == 'MemberExpr' and any(x['k'] == 'DeclRefExpr' and x.get('vid') == ps[0]['vid'] for x in fn.walk(e['c'][1])):
+                    return l.get('d')
+    return None
+
+
 def no_narrow(run, fx, RULE, fields, min_sites=1):
     fw = field_writes(fx)
     for f in fields:
+        if isinstance(f, tuple):        # (label, setter): the field is whatever the setter stores into
+            label, setter = f
+            f = field_of_setter(fx, setter)
+            if f is None:
+                run.broken(RULE, 'index field %s' % label, 'the setter %s no longer stores its parameter into a field' % setter, '')
+                continue
         short = f.split('::', 1)[1]
         sites = [(fn, e, kind) for fn, e, kind in fw.get(f, []) if kind in ('assign', 'init', '=') or True]
         n = 0
